@@ -314,5 +314,39 @@ pub fn parts() -> Vec<Box<dyn PartDyn>> {
             shrink_budget: 100,
             confirm_runs: 2,
         }),
+        Box::new(Part::<crate::checks::c17::Case> {
+            name: "hb-timing",
+            rule: "the connection behaves by the announced heartbeat: client and server options differ (one of them 0, or 1-2 s against 60 s), so the negotiated interval is not the client's own option; the C17 timing oracle (longest gap between client writes <= h + 0.9 s, silence fatal at 2h, nothing at all when 0 was announced) is applied on the real clock, all cases concurrently; every case non-trivial",
+            cases: |t| t.pick(16, 96),
+            threads: 48,
+            strategy: hb_strat,
+            exec: crate::checks::c17::exec,
+            enumerate: None,
+            shrink_budget: 0,
+            confirm_runs: 2,
+        }),
     ]
+}
+
+/// client / server heartbeat options that differ, so that "negotiated" != "client's option"
+fn hb_strat(_t: Tier) -> BoxedStrategy<crate::checks::c17::Case> {
+    let pair = prop_oneof![
+        Just((60u8, 1u8)),
+        Just((60u8, 2u8)),
+        Just((1u8, 0u8)),
+        Just((2u8, 0u8)),
+        Just((0u8, 1u8)),
+        Just((1u8, 60u8)),
+        Just((2u8, 1u8)),
+    ];
+    (pair, any::<u8>(), prop_oneof![1 => Just(None), 1 => any::<u16>().prop_map(Some)], any::<bool>())
+        .prop_map(|((client_hb, server_hb), feed_pct, silent_after_ms, feed_other)| crate::checks::c17::Case {
+            client_hb,
+            server_hb,
+            feed_pct,
+            silent_after_ms,
+            publish_pct: None,
+            feed_other,
+        })
+        .boxed()
 }
